@@ -55,7 +55,15 @@ GU(db, st, n) == [db |-> db, status |-> st, n |-> n, reg |-> FALSE, mv |-> FALSE
 \*  scribbles: _run writes its progress into pre-existing (input) variables
 \*  postClears: the transcribed _postprocess clears a role of pre-existing variables without giving it to an output
 \*  rb       : what the transcribed _rollback undoes, subset of
-\*             {"perm","temp","unreg","roles","croles","runcols","values"} (only registered groups can be removed)
+\*             {"perm","temp","unreg","roles","croles","runcols","values","raw"}; only registered groups can be
+\*             removed, unless "raw" is there (the entry point deletes the columns it created itself)
+\* The transcription follows the tree being verified.  Before the repairs of the calculators TLC predicted on it
+\* (and the replay confirmed): kriging with an IMAGE neighbourhood reported as a success (lies = {"check"});
+\* krigingFactors leaving the Z / X roles of dbin moved after ANY failure and reporting a failed _run as a success
+\* (rb without "croles" / "roles", lies = {"run"}); the centring going on after a failed allocation (lies = {"center"});
+\* DGM kriging / simulation losing the X roles after a failure in or after _preprocess (rb without "roles");
+\* tessellation_poisson keeping its work field when _run fails (rb without "runcols"); simbool keeping "Cover" and
+\* its outputs (rb = {}); simuPost clearing the Z roles on success (postClears).
 P(name, same, groups) ==
   [name |-> name, same |-> same, hooks |-> TRUE, noerr |-> FALSE, groups |-> groups, unreg |-> 0, postUnreg |-> FALSE,
    cmoves |-> FALSE, runUnreg |-> 0, lies |-> {}, scribbles |-> FALSE, postClears |-> FALSE, rb |-> {"perm", "temp"}]
@@ -66,22 +74,24 @@ Est1Std1 == <<G("out", "perm", 1), G("out", "perm", 1)>>
 One      == <<G("out", "perm", 1)>>
 
 ProfilesKriging ==
-  { [P("kriging", FALSE, Est1Std1) EXCEPT !.lies = {"check"}],                       \* IMAGE neighbourhood: return 1
+  { P("kriging", FALSE, Est1Std1),
     [P("krigtest", FALSE, <<G("out", "temp", 1), G("out", "temp", 1)>>) EXCEPT !.noerr = TRUE],
     P("xvalid", TRUE, Est1Std1),
     P("test_neigh", FALSE, <<G("out", "perm", 5)>>),
     [P("kriging_extdrift", FALSE, Est1Std1) EXCEPT !.unreg = 1],
     \* DGM: estimation groups first, then the centred copies of the coordinates (temporary, in dbin) take the X roles
-    [P("kriging_dgm", FALSE, <<G("out", "perm", 1), G("out", "perm", 1), GX(2)>>) EXCEPT !.lies = {"center"}],
+    \* (_rollback gives the X roles back)
+    [P("kriging_dgm", FALSE, <<G("out", "perm", 1), G("out", "perm", 1), GX(2)>>) EXCEPT !.rb = {"perm", "temp", "roles"}],
     P("kribayes", FALSE, Est1Std1),
     P("krigcell", FALSE, Est1Std1),
     P("krigprof", FALSE, Est1Std1),
     P("kriggam", FALSE, Est1Std1),
     P("kriging_varz", FALSE, <<G("out", "perm", 1), G("out", "perm", 1), G("out", "perm", 1)>>),
-    \* CalcKrigingFactors: _check clears Z in dbin and gives it to the first factor only, before any test;
-    \* every error branch of _run returns 1; with a change of support the centring comes BEFORE the outputs
-    [P("krig_factors", FALSE, <<G("out", "perm", 2), G("out", "perm", 2)>>) EXCEPT !.cmoves = TRUE, !.lies = {"run"}],
-    [P("krig_factors_cs", FALSE, <<GX(2), G("out", "perm", 2), G("out", "perm", 2)>>) EXCEPT !.cmoves = TRUE, !.lies = {"run", "center"}],
+    \* CalcKrigingFactors: _check clears Z in dbin and gives it to the first factor only, before any test
+    \* (_rollback gives Z back to all factors); with a change of support the centring comes BEFORE the outputs
+    [P("krig_factors", FALSE, <<G("out", "perm", 2), G("out", "perm", 2)>>) EXCEPT !.cmoves = TRUE, !.rb = {"perm", "temp", "croles"}],
+    [P("krig_factors_cs", FALSE, <<GX(2), G("out", "perm", 2), G("out", "perm", 2)>>)
+       EXCEPT !.cmoves = TRUE, !.rb = {"perm", "temp", "croles", "roles"}],
     \* CalcImage (dbin = dbout = the grid)
     P("krimage", TRUE, One),
     P("db_smoother", TRUE, One),
@@ -102,21 +112,22 @@ ProfilesSimu ==
   { [P("simtub_nc", FALSE, <<G("out", "perm", 2)>>) EXCEPT !.postUnreg = TRUE, !.lies = {"check"}],    \* nbtuba <= 0: return 1
     [P("simtub_cond", FALSE, <<G("in", "temp", 2), G("out", "perm", 2)>>) EXCEPT !.postUnreg = TRUE],
     [P("simbayes", FALSE, <<G("in", "temp", 2), G("out", "perm", 2)>>) EXCEPT !.postUnreg = TRUE],
-    [P("simtub_dgm", FALSE, <<G("in", "temp", 2), G("out", "perm", 2), GX(2)>>) EXCEPT !.postUnreg = TRUE, !.lies = {"center"}],
+    [P("simtub_dgm", FALSE, <<G("in", "temp", 2), G("out", "perm", 2), GX(2)>>) EXCEPT !.postUnreg = TRUE, !.rb = {"perm", "temp", "roles"}],
     P("simfft", TRUE, One),
     P("simfft_multi", TRUE, <<G("out", "perm", 2)>>),
     P("tess_voronoi", FALSE, One),
     \* Poisson polyhedra: _run simulates a Gaussian field into the grid with a nested simtub and deletes it at its end
-    [P("tess_poisson", FALSE, One) EXCEPT !.runUnreg = 1],
+    \* (and when it fails)
+    [P("tess_poisson", FALSE, One) EXCEPT !.runUnreg = 1, !.rb = {"perm", "temp", "runcols"}],
     P("substitution", FALSE, One),
     \* CalcSimuEden propagates in place in the Facies / Fluid variables given as input
     [P("eden", FALSE, Est1Std1) EXCEPT !.scribbles = TRUE],                   \* Fluid, Date
     [P("eden_stats", FALSE, <<G("out", "perm", 2), G("out", "perm", 1), G("out", "perm", 1), G("out", "perm", 1)>>) EXCEPT !.scribbles = TRUE],
     P("simu_refine", FALSE, <<>>),                                            \* returns a new grid, touches no db
     \* SimuBoolean / SimuSpherical derive from ACalcSimulation but their entry points never call run():
-    \* they add the work column "Cover" to dbin and the outputs to dbout themselves
-    Q("simbool", FALSE, <<GU("in", "temp", 1), GU("out", "perm", 1), GU("out", "perm", 1)>>),
-    Q("simbool_nc", FALSE, <<GU("out", "perm", 1), GU("out", "perm", 1)>>),
+    \* they add the work column "Cover" to dbin and the outputs to dbout themselves (simbool deletes them when it fails)
+    [Q("simbool", FALSE, <<GU("in", "temp", 1), GU("out", "perm", 1), GU("out", "perm", 1)>>) EXCEPT !.rb = {"perm", "temp", "raw"}],
+    [Q("simbool_nc", FALSE, <<GU("out", "perm", 1), GU("out", "perm", 1)>>) EXCEPT !.rb = {"perm", "temp", "raw"}],
     Q("simsph", TRUE, <<GU("out", "perm", 1)>>) }
 
 ProfilesDbToDb ==
@@ -130,11 +141,11 @@ ProfilesDbToDb ==
     P("g2g_expand", FALSE, One),
     P("g2g_shrink", FALSE, <<G("out", "perm", 1), G("out", "temp", 1)>>),
     P("g2g_interp", FALSE, One),
-    \* CalcSimuPost renames with a variable count of 0: the naming convention clears the Z roles and sets none
-    [P("simupost_up", FALSE, <<G("out", "perm", 2)>>) EXCEPT !.postClears = TRUE],
-    [P("simupost_self", TRUE, <<G("in", "perm", 2)>>) EXCEPT !.postClears = TRUE],
-    [P("simupost_demo", FALSE, <<G("out", "perm", 4)>>) EXCEPT !.postClears = TRUE],
-    [P("simupost_layer", FALSE, <<G("out", "perm", 3)>>) EXCEPT !.postClears = TRUE],
+    \* CalcSimuPost renames with a variable count of 0: the naming convention then leaves the roles alone
+    P("simupost_up", FALSE, <<G("out", "perm", 2)>>),
+    P("simupost_self", TRUE, <<G("in", "perm", 2)>>),
+    P("simupost_demo", FALSE, <<G("out", "perm", 4)>>),
+    P("simupost_layer", FALSE, <<G("out", "perm", 3)>>),
     \* plain functions of CalcMigrate.cpp (no calculator object)
     Q("point_to_block", FALSE, <<GU("out", "perm", 1), GU("in", "temp", 1), GU("in", "perm", 3)>>),
     Q("interp_to_point", FALSE, <<>>),
@@ -249,7 +260,7 @@ Post == /\ stage = "postprocessing"
 Undone == IF proto = "intended" THEN {"perm", "temp", "unreg", "roles", "croles", "runcols", "values"} ELSE prof.rb
 
 Rollback == /\ stage = "failing"
-            /\ made' = SelectSeq(made, LAMBDA g : ~(g.status \in Undone /\ (g.reg \/ proto = "intended")))
+            /\ made' = SelectSeq(made, LAMBDA g : ~(g.status \in Undone /\ (g.reg \/ "raw" \in Undone \/ proto = "intended")))
             /\ unregd' = IF "unreg" \in Undone THEN 0 ELSE unregd
             /\ moved' = IF "roles" \in Undone THEN FALSE ELSE moved
             /\ cmoved' = IF "croles" \in Undone THEN FALSE ELSE cmoved
@@ -283,10 +294,11 @@ NoTempAfterSuccess == ret = "ok" => \A i \in 1..Len(made) : made[i].status = "pe
 (* Natural ways of failing offered to the conformance run, per fault point:  *)
 (* inputs that make the named stage of the real calculator fail by itself    *)
 (* (the injected faults need no input).                                      *)
-KrigLike == {"kriging", "krigtest", "xvalid", "test_neigh", "simtub_cond", "kriging_extdrift", "kribayes",
+KrigLike == {"krigtest", "xvalid", "test_neigh", "simtub_cond", "kriging_extdrift", "kribayes",
              "krigcell", "krigprof", "kriggam", "kriging_varz", "simbayes"}
 NaturalVariants(pname, f) ==
-  CASE f = "check" /\ pname \in KrigLike -> {"nvar_mismatch", "ndim_mismatch", "no_model", "no_neigh", "no_z"}
+  CASE f = "check" /\ pname = "kriging" -> {"nvar_mismatch", "ndim_mismatch", "no_model", "no_neigh", "no_z", "image_neigh"}
+    [] f = "check" /\ pname \in KrigLike -> {"nvar_mismatch", "ndim_mismatch", "no_model", "no_neigh", "no_z"}
     [] f = "check" /\ pname = "simtub_nc" -> {"ndim_mismatch", "no_model"}
     [] f = "check" /\ pname \in {"migrate", "regression", "normal_score", "gaussian_to_raw"} -> {"bad_name"}
     [] f = "check" /\ pname = "migrate_locator" -> {"bad_dist_type"}
@@ -300,13 +312,12 @@ NaturalVariants(pname, f) ==
     [] f = "run" /\ pname = "kriggam" -> {"sill_above_one"}
     [] f = "run" /\ pname = "krigprof" -> {"no_code"}
     [] f = "run" /\ pname = "krigcell" -> {"block_on_points", "no_ndisc"}
-    [] f = "check_r1" /\ pname = "kriging" -> {"image_neigh"}
     [] f = "check_r1" /\ pname = "simtub_nc" -> {"nbtuba_zero"}
     [] f = "check" /\ pname = "kriging_extdrift" -> {"no_ext_out"}
     [] f = "check" /\ pname \in {"kriging_dgm", "simtub_dgm"} -> {"points_out", "no_anam", "no_support"}
     [] f = "run" /\ pname = "kriging_dgm" -> {"sill_not_one"}
     [] f = "check" /\ pname \in {"krig_factors", "krig_factors_cs"} -> {"no_anam", "nvar_model_two", "block_no_ndisc", "no_neigh"}
-    [] f = "run_r1" /\ pname = "krig_factors" -> {"block_on_points"}
+    [] f = "run" /\ pname = "krig_factors" -> {"block_on_points"}
     [] f = "check" /\ pname = "krimage" -> {"no_z", "no_model"}
     [] f = "check" /\ pname = "db_smoother" -> {"bad_type", "two_z", "no_z"}
     [] f = "check" /\ pname \in {"morpho", "morpho_gradient"} -> {"two_z", "no_z"}
